@@ -55,6 +55,7 @@ type verifC17Run struct {
 	Big      bool          `json:"big"`
 	CommitUS int           `json:"commit_us"`
 	Class    string        `json:"class"`
+	Torn     bool          `json:"torn,omitempty"` // followed by the torn-tail / ReadAndExit stage
 }
 
 type verifC17Outcome struct {
@@ -76,6 +77,113 @@ func verifC17Append(path string, ev string, kv ...any) {
 	_ = tr.f.Close()
 }
 
+// verifC17Spawn runs one child generation to its death and classifies how it ended.
+func verifC17Spawn(dir, trace string, run verifC17Run, g verifC17Gen, gen int, out *verifC17Outcome, extra ...string) (status string) {
+	cmd := osexec.Command(os.Args[0], "-test.run", "^TestVerifC17Child$", "-test.count=1", "-test.timeout", "300s")
+	env := []string{}
+	for _, kv := range os.Environ() {
+		if strings.HasPrefix(kv, "VERIF_OUT=") || strings.HasPrefix(kv, "VERIF_IN=") {
+			continue
+		}
+		env = append(env, kv)
+	}
+	clean := "0"
+	if g.Clean {
+		clean = "1"
+	}
+	commitUS := run.CommitUS
+	if g.CommitUS != 0 {
+		commitUS = g.CommitUS
+	}
+	big := "0"
+	if run.Big {
+		big = "1"
+	}
+	env = append(env, "VERIF_C17_CHILD=1", "VERIF_C17_DIR="+dir, "VERIF_C17_TRACE="+trace,
+		"VERIF_C17_MODE="+run.Mode, fmt.Sprintf("VERIF_C17_GEN=%d", gen),
+		fmt.Sprintf("VERIF_C17_FIRSTID=%d", (gen-1)*64+1), fmt.Sprintf("VERIF_C17_NOPS=%d", g.Nops),
+		fmt.Sprintf("VERIF_C17_WSEED=%d", run.WSeed), "VERIF_C17_CLEAN="+clean, "VERIF_C17_BIG="+big,
+		fmt.Sprintf("VERIF_C17_COMMIT_US=%d", commitUS), "VERIF_C17_KILL="+g.Kill)
+	cmd.Env = append(env, extra...)
+	var buf bytes.Buffer
+	cmd.Stdout, cmd.Stderr = &buf, &buf
+	if err := cmd.Start(); err != nil {
+		out.errs = append(out.errs, "start child: "+err.Error())
+		return "error"
+	}
+	done := make(chan error, 1)
+	go func() { done <- cmd.Wait() }()
+	var timeKill <-chan time.Time
+	if strings.HasPrefix(g.Kill, "time:") {
+		var us int
+		fmt.Sscanf(g.Kill[5:], "%d", &us)
+		timeKill = time.After(time.Duration(us) * time.Microsecond)
+	}
+	hang := time.After(200 * time.Second)
+	var werr error
+	hung := false
+wait:
+	for {
+		select {
+		case werr = <-done:
+			break wait
+		case <-timeKill:
+			_ = cmd.Process.Kill()
+			timeKill = nil
+		case <-hang:
+			hung = true
+			_ = cmd.Process.Kill()
+			hang = nil
+		}
+	}
+	out.gens++
+	status = "exit0"
+	if werr != nil {
+		status = "error"
+		if ee, ok := werr.(*osexec.ExitError); ok {
+			if ws, ok := ee.Sys().(syscall.WaitStatus); ok && ws.Signaled() && ws.Signal() == syscall.SIGKILL {
+				status = "killed"
+			}
+		}
+	}
+	if hung {
+		out.hung++
+		status = "hung"
+		verifC17Append(trace, "Hung", "gen", gen)
+	}
+	if status == "error" {
+		tail := buf.String()
+		if len(tail) > 1500 {
+			tail = tail[len(tail)-1500:]
+		}
+		verifC17Append(trace, "ChildExit", "gen", gen, "out", tail)
+		out.errs = append(out.errs, fmt.Sprintf("run %d gen %d (%s): child failed: %s", run.N, gen, g.Kill, tail))
+	}
+	return status
+}
+
+// verifC17Disk appends what is on disk now to the trace; false = the run cannot go on
+func verifC17Disk(dir, dbName, trace, status string, gen int, run verifC17Run, out *verifC17Outcome) (verifC17DiskState, bool) {
+	st, err := verifC17ReadDisk(dir, dbName)
+	if err != nil {
+		out.errs = append(out.errs, fmt.Sprintf("run %d gen %d: disk: %v", run.N, gen, err))
+		verifC17Append(trace, "DiskErr", "err", err.Error())
+		return st, false
+	}
+	if st.Tail != 0 && status != "torn" {
+		// the kill cut the last write(2) inside a record: fsbinlog's subject (C18), not judged here
+		out.torn++
+		verifC17Append(trace, "Torn", "tail", st.Tail, "gen", gen)
+		return st, false
+	}
+	if status == "torn" {
+		status = "fresh"
+	}
+	verifC17Append(trace, "Disk", "dboff", st.DbOff, "dbrows", st.DbRows, "recs", st.Recs,
+		"tail", st.Tail, "status", status, "gen", gen)
+	return st, true
+}
+
 func verifC17RunOne(base string, run verifC17Run) (out verifC17Outcome) {
 	dir := filepath.Join(base, fmt.Sprintf("run%05d", run.N))
 	_ = os.MkdirAll(dir, 0o755)
@@ -85,113 +193,82 @@ func verifC17RunOne(base string, run verifC17Run) (out verifC17Outcome) {
 		return
 	}
 	verifC17Append(out.trace, "Reset", "run", run.N, "mode", run.Mode, "class", run.Class)
-	disk := func(status string, gen int) bool {
-		st, err := verifC17ReadDisk(dir)
-		if err != nil {
-			out.errs = append(out.errs, fmt.Sprintf("run %d gen %d: disk: %v", run.N, gen, err))
-			verifC17Append(out.trace, "DiskErr", "err", err.Error())
-			return false
-		}
-		if st.Tail != 0 {
-			// the kill cut the last write(2) inside a record: fsbinlog's subject (C18), not judged here
-			out.torn++
-			verifC17Append(out.trace, "Torn", "tail", st.Tail, "gen", gen)
-			return false
-		}
-		verifC17Append(out.trace, "Disk", "dboff", st.DbOff, "dbrows", st.DbRows, "recs", st.Recs,
-			"tail", st.Tail, "status", status, "gen", gen)
-		return true
-	}
-	if !disk("fresh", 0) {
+	if _, ok := verifC17Disk(dir, verifC17DBName, out.trace, "fresh", 0, run, &out); !ok {
 		return
 	}
 	for gi, g := range run.Gens {
-		gen := gi + 1
-		cmd := osexec.Command(os.Args[0], "-test.run", "^TestVerifC17Child$", "-test.count=1", "-test.timeout", "300s")
-		env := []string{}
-		for _, kv := range os.Environ() {
-			if strings.HasPrefix(kv, "VERIF_OUT=") || strings.HasPrefix(kv, "VERIF_IN=") {
-				continue
-			}
-			env = append(env, kv)
-		}
-		clean := "0"
-		if g.Clean {
-			clean = "1"
-		}
-		commitUS := run.CommitUS
-		if g.CommitUS != 0 {
-			commitUS = g.CommitUS
-		}
-		big := "0"
-		if run.Big {
-			big = "1"
-		}
-		env = append(env, "VERIF_C17_CHILD=1", "VERIF_C17_DIR="+dir, "VERIF_C17_TRACE="+out.trace,
-			"VERIF_C17_MODE="+run.Mode, fmt.Sprintf("VERIF_C17_GEN=%d", gen),
-			fmt.Sprintf("VERIF_C17_FIRSTID=%d", gi*64+1), fmt.Sprintf("VERIF_C17_NOPS=%d", g.Nops),
-			fmt.Sprintf("VERIF_C17_WSEED=%d", run.WSeed), "VERIF_C17_CLEAN="+clean, "VERIF_C17_BIG="+big,
-			fmt.Sprintf("VERIF_C17_COMMIT_US=%d", commitUS), "VERIF_C17_KILL="+g.Kill)
-		cmd.Env = env
-		var buf bytes.Buffer
-		cmd.Stdout, cmd.Stderr = &buf, &buf
-		if err := cmd.Start(); err != nil {
-			out.errs = append(out.errs, "start child: "+err.Error())
-			return
-		}
-		done := make(chan error, 1)
-		go func() { done <- cmd.Wait() }()
-		var timeKill <-chan time.Time
-		if strings.HasPrefix(g.Kill, "time:") {
-			var us int
-			fmt.Sscanf(g.Kill[5:], "%d", &us)
-			timeKill = time.After(time.Duration(us) * time.Microsecond)
-		}
-		hang := time.After(200 * time.Second)
-		var werr error
-		hung := false
-	wait:
-		for {
-			select {
-			case werr = <-done:
-				break wait
-			case <-timeKill:
-				_ = cmd.Process.Kill()
-				timeKill = nil
-			case <-hang:
-				hung = true
-				_ = cmd.Process.Kill()
-				hang = nil
-			}
-		}
-		out.gens++
-		status := "exit0"
-		if werr != nil {
-			status = "error"
-			if ee, ok := werr.(*osexec.ExitError); ok {
-				if ws, ok := ee.Sys().(syscall.WaitStatus); ok && ws.Signaled() && ws.Signal() == syscall.SIGKILL {
-					status = "killed"
-				}
-			}
-		}
-		if hung {
-			out.hung++
-			status = "hung"
-			verifC17Append(out.trace, "Hung", "gen", gen)
-		}
-		if status == "error" {
-			tail := buf.String()
-			if len(tail) > 1500 {
-				tail = tail[len(tail)-1500:]
-			}
-			verifC17Append(out.trace, "ChildExit", "gen", gen, "out", tail)
-			out.errs = append(out.errs, fmt.Sprintf("run %d gen %d (%s): child failed: %s", run.N, gen, g.Kill, tail))
-		}
-		if !disk(status, gen) || status == "error" || status == "hung" {
+		status := verifC17Spawn(dir, out.trace, run, g, gi+1, &out)
+		if _, ok := verifC17Disk(dir, verifC17DBName, out.trace, status, gi+1, run, &out); !ok || status == "error" || status == "hung" {
 			return
 		}
 	}
+	if run.Torn {
+		verifC17TornTail(dir, run, &out)
+	}
 	return
+}
+
+// verifC17TornTail: after the master of this run was closed, its binlog is cut inside the last
+// event (a master that is in the middle of a write / was killed there); a ReadAndExit engine with
+// a database of its own reads the cut files and is closed; the rest of the event reaches the
+// disk; the same engine is started again.  Second segment of the run's trace.
+func verifC17TornTail(dir string, run verifC17Run, out *verifC17Outcome) {
+	full, err := verifC17ReadDisk(dir, verifC17DBName)
+	files, _ := filepath.Glob(filepath.Join(dir, verifC17BlPrefix+".*.bin"))
+	if err != nil || full.Tail != 0 || len(files) != 1 || len(full.Recs) == 0 {
+		out.errs = append(out.errs, fmt.Sprintf("run %d: torn-tail stage cannot start (%v, %d files)", run.N, err, len(files)))
+		return
+	}
+	lastUser := -1
+	for i, r := range full.Recs {
+		if r.ID != 0 {
+			lastUser = i
+		}
+	}
+	if lastUser < 0 {
+		return
+	}
+	content, err := os.ReadFile(files[0])
+	if err != nil {
+		out.errs = append(out.errs, err.Error())
+		return
+	}
+	rng := rand.New(rand.NewSource(run.WSeed + 99))
+	ev := full.Recs[lastUser]
+	end := full.Recs[len(full.Recs)-1].End
+	cut := (end - ev.End) + 4 + rng.Int63n(ev.Sz-7) // bytes removed: trailing service records + part of the last event
+	if err := os.WriteFile(files[0], content[:int64(len(content))-cut], 0o640); err != nil {
+		out.errs = append(out.errs, err.Error())
+		return
+	}
+	const db2 = "db_reread"
+	verifC17Append(out.trace, "Reset", "run", run.N, "mode", run.Mode, "class", run.Class+"/reread")
+	st, ok := verifC17Disk(dir, db2, out.trace, "torn", 0, run, out)
+	if !ok {
+		return
+	}
+	verifC17Append(out.trace, "Grow", "recs", st.Recs) // written by the master: in the files, durable
+	for gen := 1; gen <= 2; gen++ {
+		status := verifC17Spawn(dir, out.trace, run, verifC17Gen{Clean: true}, gen, out, "VERIF_C17_ROLE=reread", "VERIF_C17_DB="+db2)
+		if status == "error" || status == "hung" {
+			return
+		}
+		st, err := verifC17ReadDisk(dir, db2)
+		if err != nil {
+			out.errs = append(out.errs, err.Error())
+			verifC17Append(out.trace, "DiskErr", "err", err.Error())
+			return
+		}
+		verifC17Append(out.trace, "Disk", "dboff", st.DbOff, "dbrows", st.DbRows, "recs", st.Recs,
+			"tail", st.Tail, "status", status, "gen", gen)
+		if gen == 1 {
+			if err := os.WriteFile(files[0], content, 0o640); err != nil { // the rest of the event reaches the disk
+				out.errs = append(out.errs, err.Error())
+				return
+			}
+			verifC17Append(out.trace, "Grow", "recs", full.Recs)
+		}
+	}
 }
 
 func verifC17Plan(seed int64, nocc, nrand int, thorough bool) []verifC17Run {
@@ -237,6 +314,23 @@ func verifC17Plan(seed int64, nocc, nrand int, thorough bool) []verifC17Run {
 				add(mode, "replay/"+p, append(gens, tail()...))
 			}
 		}
+		if mode == "wait" {
+			ntorn := 6
+			if thorough {
+				ntorn = 30
+			}
+			for i := 0; i < ntorn; i++ {
+				// a master that is closed cleanly (sometimes after a kill + restart), then the torn-tail stage
+				gens := []verifC17Gen{}
+				if i%3 == 2 {
+					gens = append(gens, verifC17Gen{Kill: anyPoint(verifC17ServePoints), Nops: nops()})
+				}
+				gens = append(gens, verifC17Gen{Nops: 2 + nops(), Clean: true})
+				add(mode, "torn", gens)
+				runs[len(runs)-1].Torn = true
+				runs[len(runs)-1].Big = i%2 == 1
+			}
+		}
 		for i := 0; i < nrand; i++ {
 			gens := []verifC17Gen{}
 			for g := 0; g < 2+rng.Intn(2); g++ {
@@ -257,6 +351,16 @@ func TestVerifC17Crash(t *testing.T) {
 	nrand := verifkit.EnvInt("VERIF_C17_NRANDOM", 10)
 	par := verifkit.EnvInt("VERIF_C17_PAR", 8)
 	runs := verifC17Plan(verifkit.Seed(), nocc, nrand, verifkit.Thorough())
+	if only := os.Getenv("VERIF_C17_ONLY"); only != "" { // development aid: one class of runs
+		var keep []verifC17Run
+		for _, r := range runs {
+			if strings.HasPrefix(r.Class, only) {
+				r.N = len(keep)
+				keep = append(keep, r)
+			}
+		}
+		runs = keep
+	}
 	if lim := verifkit.EnvInt("VERIF_C17_MAXRUNS", 0); lim > 0 && lim < len(runs) {
 		runs = runs[:lim]
 	}
